@@ -129,6 +129,8 @@ class Walker:
                 if variant is None or variant == vname:
                     return base[3][idx]
         key = name if (name is not None and not e.get("tuple")) else idx
+        if isinstance(key, str) and key.isdigit():
+            key = int(key)
         return ("field", base, key, variant)
 
     def op_expr(self, o, env, fenv):
@@ -411,7 +413,14 @@ def last_seg(path, n=2):
     if path is None:
         return "<indirect>"
     # strip generic args inside <>
-    parts = [x for x in split_path(path) if not (x.startswith("<") and x.endswith(">") and " as " not in x)]
+    parts = []
+    for x in split_path(path):
+        if x.startswith("<impl ") and x.endswith(">") and " for " not in x:
+            parts.append(x[6:-1])       # inherent impl on a primitive: <impl i64> -> i64
+        elif x.startswith("<") and x.endswith(">") and " as " not in x:
+            continue                    # generic argument list
+        else:
+            parts.append(x)
     return "::".join(parts[-n:])
 
 
